@@ -145,6 +145,16 @@ def un_ut(tok: str) -> str:
     return "" if h == "-" else bytes.fromhex(h).decode()
 
 
+def jsonable(x):
+    """x with everything that is not plain data removed (a case may carry live objects for the harness's own use; they do not belong
+    in a replay file or in the corpus)"""
+    if isinstance(x, dict):
+        return {k: jsonable(v) for k, v in x.items() if isinstance(v, (dict, list, tuple, str, int, float, bool, type(None)))}
+    if isinstance(x, (list, tuple)):
+        return [jsonable(v) for v in x]
+    return x
+
+
 def finding_open(fid: str) -> bool:
     """is this finding listed as OPEN in the committed known_findings.json (only then may a check set it aside)"""
     try:
